@@ -44,7 +44,10 @@ async fn main() {
     ];
     let mut cases = std::fs::File::create(out("cases.txt")).unwrap();
     let mut outs = std::fs::File::create(out("impl.txt")).unwrap();
-    for (gc, pname) in [(0, "proj"), (1, "projb")] { let proj = fx.join(pname); std::env::set_current_dir(&proj).unwrap();
+    // third fixture: the same project as the first, but watchexec is started from a SUBDIRECTORY of the project origin (the probes lie
+    // outside the working directory)
+    std::fs::create_dir_all(fx.join("proj").join("app")).unwrap();
+    for (gc, pname, sub) in [(0, "proj", ""), (1, "projb", ""), (2, "proj", "app")] { let proj = fx.join(pname); std::env::set_current_dir(if sub.is_empty() { proj.clone() } else { proj.join(sub) }).unwrap();
     for mask in 0..64u32 {
         let on: Vec<bool> = (0..6).map(|i| mask & (1 << i) != 0).collect();
         let mut rows = vec![];
